@@ -584,12 +584,23 @@ pub fn cmd_gen(seed: u64, count: usize, out: &str, ty: &str, small: bool) {
             // Fibonacci counts: the symbol of rank n-9 has an 8-bit code, the two most frequent ones 1 and 2 bits.
             // Items that leave 1..7 pending bits of either polarity, each followed by an item that starts with the
             // 8-bit code (the encoder's byte-aligned paths)
+            // (which symbols have all-zero / all-one codes is the implementation's choice: the most frequent and the
+            //  rarest ones are both tried as the bits that precede the 8-bit code, inside an item and across items)
             let (top, second, eight) = (syms[nsym - 1], syms[nsym - 2], syms[nsym - 9]);
             for k in 1..8usize {
                 ops.push(json!({"op": "push", "s": 3, "v": vec![top; k]}));
                 ops.push(json!({"op": "push", "s": 3, "v": [eight]}));
                 ops.push(json!({"op": "push", "s": 3, "v": vec![second; (k + 1) / 2]}));
                 ops.push(json!({"op": "push", "s": 3, "v": [eight, top]}));
+            }
+            for pre in [top, second, syms[0], syms[1], syms[2]] {
+                for k in 1..4usize {
+                    let mut it = vec![pre; k];
+                    it.push(eight);
+                    ops.push(json!({"op": "push", "s": 3, "v": it}));
+                    ops.push(json!({"op": "push", "s": 3, "v": vec![pre; k]}));
+                    ops.push(json!({"op": "push", "s": 3, "v": [eight, eight]}));
+                }
             }
         }
         if rng.gen_bool(0.25) {
